@@ -288,7 +288,19 @@ func (it *Interp) flushAsserts() {
 		conj = smt.And(conj, p.cond)
 	}
 	it.nAssertQ++
-	switch it.check(smt.Not(conj)) {
+	first := it.check(smt.Not(conj))
+	if it.Solver2 != nil && first != smt.Unknown {
+		// thorough tier: every assertion batch is re-decided by a second solver; a disagreement is never a pass
+		q := smt.Not(conj)
+		r2, _, err := it.Solver2.Check(q, it.sliceFor(q), nil)
+		it.nCross++
+		if err != nil || r2 == smt.Unknown {
+			it.crossUnknown++
+		} else if r2 != first {
+			panic(pathEnd{Kind: "unsupported", Label: "solver-disagreement", Msg: "z3 says " + first.String() + ", " + it.Solver2.Kind + " says " + r2.String() + " on assertion batch starting with: " + batch[0].label})
+		}
+	}
+	switch first {
 	case smt.Unsat:
 		return
 	case smt.Unknown:
